@@ -54,6 +54,19 @@ class Collector:
         self.flushed += 1
 
 
+class FaultyCollector(Collector):
+    """A logger whose log() raises on chosen calls (the attempted trace still counts as what the tracer logged)."""
+
+    def __init__(self, fail_at: set) -> None:
+        super().__init__()
+        self.fail_at = fail_at
+
+    def log(self, t: Any) -> None:
+        self.traces.append(t)
+        if len(self.traces) in self.fail_at:
+            raise RuntimeError(f"injected failure in log #{len(self.traces)}")
+
+
 def drive_coro(c: Any) -> Any:
     try:
         c.send(None)
@@ -356,6 +369,31 @@ def part_nesting(ctx: Ctx) -> Result:
         if len(got_funcs) != 3 or any(g is not w for g, w in zip(got_funcs, want_funcs)):
             res.violate(Violation(ID, "spurious-or-misattributed", "state-carried-between-sessions", {"part": "n", "order": [0, 1], "mod": 0, "call": -2, "k": k}, f"second tracing session after importlib.reload: traces attributed to {[getattr(g, '__qualname__', g) for g in got_funcs]} objects that are {'not ' if any(g is not w for g, w in zip(got_funcs, want_funcs)) else ''}the reloaded functions"))
         res.oblige("n:two-sessions-with-reload", True)
+    # a logger that fails on its i-th call, for every i: the failure is the logger's, every call is still handed to it
+    # exactly once and in completion order, and the tracer forgets the call all the same
+    nlogs = 0
+    with trace_calls(c_probe := Collector(), 0, lambda code: code.co_filename in files):
+        for expr in P.NESTING_CALLS:
+            try:
+                eval(expr, {"M": mods[0]})
+            except Exception:  # noqa: BLE001
+                pass
+    nlogs = len(c_probe.traces)
+    for fail in range(1, nlogs + 1):
+        col = FaultyCollector({fail, fail + 3})
+        rec = GT.Recorder(lambda code: code.co_filename in files, typer_for(0))
+        with rec:
+            with trace_calls(col, 0, lambda code: code.co_filename in files):
+                tracer = sys.getprofile()
+                for ci, expr in enumerate(P.NESTING_CALLS):
+                    n0, l0 = len(rec.order), len(col.traces)
+                    try:
+                        eval(expr, {"M": mods[0]})
+                    except Exception:  # noqa: BLE001
+                        pass
+                    res.states += 1
+                    judge_op(res, {"part": "n", "order": [0, 1], "mod": 0, "call": ci, "k": 0, "log_fails_at": fail}, rec, col, tracer, n0, l0, may, f"{names[0]}: {expr} with log() raising on calls #{fail} and #{fail + 3}")
+    res.oblige("n:logger-faults", nlogs > 10)
     res.oblige("n:twin-code-objects-equal", mods[0].leaf.__code__ == mods[1].leaf.__code__ and mods[0].leaf.__code__ is not mods[1].leaf.__code__)
     for nm in names:
         del sys.modules[nm]
@@ -532,6 +570,14 @@ async def c_await(a):
     r2 = await Susp()
     return [r, r2]
 
+async def c_rebind(a):
+    a = str(a)
+    r = await Susp()
+    a = [a]
+    r2 = await Susp()
+    del a
+    return r2
+
 def g_unt_yield(a):
     yield a
     l = [a]
@@ -549,7 +595,7 @@ def g_unt_arg(a):
 
 TEMPLATES = [("g_plain", "2"), ("g_rebind", "5"), ("g_finally", "'f'"), ("g_except", "1"), ("g_from", "0"), ("g_raise", "'k'"), ("g_send", "None"), ("c_await", "1"), ("tc_yield", "1"), ("c_over_tc", "2"),
              # values on which type collection itself fails (a self-referential list): yielded in mid-life / passed as the argument
-             ("g_unt_yield", "1"), ("g_unt_arg", "(lambda l: (l.append(l), l)[1])([])")]
+             ("c_rebind", "3"), ("g_unt_yield", "1"), ("g_unt_arg", "(lambda l: (l.append(l), l)[1])([])")]
 OPS = ["next", "send", "throw", "close", "drop"]
 
 
@@ -693,6 +739,7 @@ def run(ctx: Ctx) -> Result:
     res.obligations.setdefault("b:two-frames-live-simultaneously", False)
     res.obligations.setdefault("n:twin-code-objects-equal", False)
     res.obligations.setdefault("n:two-sessions-with-reload", False)
+    res.obligations.setdefault("n:logger-faults", False)
     res.obligations.setdefault("u:type-collection-really-failed", False)
     return res
 
